@@ -33,7 +33,10 @@
 //! commit t=<T>                                CommitBuilder::execute of the pending transaction
 //! hold t=<T> v=<N>                            checkout_version(N), handle kept
 //! restore t=<T>                               held handle .restore()
-//!   -> <ok|err_<kind>|panic> M=<manifests> F=<new objects> R=<gone objects>
+//!   -> <ok|err_<kind>|panic> M=<manifests> F=<new objects> R=<gone objects>     (status = the write's OWN result; `M=` = the
+//!      attached versions that exist afterwards and did not before: a write that published must report ok — the Lean driver
+//!      predicts `ok` whenever `M=` holds an attached version, whatever the auto-cleanup hook did; oracle key
+//!      `auto_cleanup_error_fails_committed_write`)
 //!      manifest = v<N>|D<k> : data names : deletion names : txn name : index ids : interval/older/retain
 //! cleanup t=<T> h=<l|N> older=<secs> unv=<0|1|-> err=<0|1|->   Dataset::cleanup_old_versions
 //! cleanp  t=<T> h=<l|N> bts=<secs|-> bv=<N|-> unv=<0|1> err=<0|1>   cleanup_with_policy(CleanupPolicy{..})
